@@ -6,6 +6,8 @@ from .smt import Val, I, B, S
 from .values import *
 
 U_STRIP = z3.Function("py_strip", S, S)
+U_LSTRIP = z3.Function("py_lstrip", S, S)
+U_RSTRIP = z3.Function("py_rstrip", S, S)
 U_LOWER = z3.Function("py_lower", S, S)
 U_UPPER = z3.Function("py_upper", S, S)
 U_REPLACE = z3.Function("py_replace_all", S, S, S, S)
@@ -22,14 +24,27 @@ def _t(v):
 
 
 def _conc(*vs):
-    return all(not isinstance(v, Sym) for v in vs)
+    # engine-side stand-ins for lists of strings (the abstract result of split(), heap lists) are not native values; an engine list of
+    # python strings is (it is unwrapped by _native below)
+    for v in vs:
+        if isinstance(v, (PObj, PDict)):
+            raise Unsupported(f"string method applied to / given an engine object ({type(v).__name__})")      # never let CPython raise on a stand-in
+        if isinstance(v, Sym) or type(v).__name__ in ("SplitV", "JoinedV"):
+            return False
+        if isinstance(v, PList) and (v.ref is not None or not all(isinstance(x, str) for x in v.items)):
+            return False
+    return True
+
+
+def _native(v):
+    return list(v.items) if isinstance(v, PList) else v
 
 
 def method(ip, recv, name, args, kwargs):
     c = ip.c
     if _conc(recv, *args, *kwargs.values()):
         try:
-            r = getattr(recv, name)(*args, **kwargs)
+            r = getattr(recv, name)(*[_native(a) for a in args], **{k: _native(x) for k, x in kwargs.items()})
         except UnicodeError as ex:
             ip.py_raise(type(ex), str(ex))
         except (TypeError, ValueError, AttributeError) as ex:
@@ -47,6 +62,10 @@ def method(ip, recv, name, args, kwargs):
         return c.concretise(Sym(z3.Function("py_str_" + name, S, B)(t), "bool"))
     if name == "strip" and not args:
         return Sym(U_STRIP(t), "str")
+    if name == "lstrip" and not args:
+        return Sym(U_LSTRIP(t), "str")
+    if name == "rstrip" and not args:
+        return Sym(U_RSTRIP(t), "str")
     if name == "lower" and not args:
         return Sym(U_LOWER(t), "str")
     if name == "upper" and not args:
